@@ -52,6 +52,63 @@ impl Writer for FaultWriter {
     }
 }
 
+/// Target encodings for a converted line program: the source's own, or a different
+/// version / format chosen by the caller (a supported use of the converter).
+fn target_encodings(sel: u64, from: gimli::Encoding) -> (Option<gimli::Encoding>, Option<gimli::LineEncoding>) {
+    let enc = match (sel >> 3) & 3 {
+        0 | 1 => None,
+        2 => Some(gimli::Encoding { version: if from.version >= 5 { 4 } else { 5 }, ..from }),
+        _ => Some(gimli::Encoding {
+            version: 2 + ((sel >> 5) % 4) as u16,
+            format: if (sel >> 7) & 1 == 0 { gimli::Format::Dwarf32 } else { gimli::Format::Dwarf64 },
+            address_size: from.address_size,
+        }),
+    };
+    let lenc = if (sel >> 8) & 3 == 0 { Some(gimli::LineEncoding::default()) } else { None };
+    (enc, lenc)
+}
+
+/// The body of `ConvertUnit::convert`, spelled out through the public pieces as in the
+/// documentation's example.
+fn stepwise_unit<'a, R: Reader<Offset = usize>>(
+    unit: &mut write::ConvertUnit<'a, R>,
+    root: write::ConvertUnitEntry<'a, R>,
+    convert_address: &dyn Fn(u64) -> Option<Address>,
+    sel: u64,
+) -> write::ConvertResult<()> {
+    let (enc, lenc) = target_encodings(sel, unit.read_unit.encoding());
+    // the line program keeps the unit's own encoding unless the caller rewrites the unit too
+    let _ = enc;
+    if let Some(program) = unit.read_line_program(None, lenc)? {
+        let (program, files) = program.convert(convert_address)?;
+        unit.set_line_program(program, files);
+    }
+    let root_id = unit.unit.root();
+    stepwise_attrs(unit, root_id, &root, convert_address)?;
+    let mut entry = root;
+    while let Some(id) = unit.read_entry(&mut entry)? {
+        if id.is_none() {
+            continue;
+        }
+        let id = unit.add_entry(id, &entry);
+        stepwise_attrs(unit, id, &entry, convert_address)?;
+    }
+    Ok(())
+}
+
+fn stepwise_attrs<R: Reader<Offset = usize>>(
+    unit: &mut write::ConvertUnit<'_, R>,
+    id: write::UnitEntryId,
+    entry: &write::ConvertUnitEntry<'_, R>,
+    convert_address: &dyn Fn(u64) -> Option<Address>,
+) -> write::ConvertResult<()> {
+    for attr in &entry.attrs {
+        let value = unit.convert_attribute_value(entry.read_unit, attr, convert_address)?;
+        unit.unit.get_mut(id).set(attr.name(), value);
+    }
+    Ok(())
+}
+
 pub fn convert<'a, R: Reader<Offset = usize> + 'a>(mk: &dyn Fn(&'a [u8]) -> R, case: &'a Case, ctx: &mut Ctx<'_>) {
     let n = ctx.n_bytes as u64;
     let sel = case.knob("sel", 0) as u64;
@@ -136,7 +193,109 @@ pub fn convert<'a, R: Reader<Offset = usize> + 'a>(mk: &dyn Fn(&'a [u8]) -> R, c
         }
     }
 
-    // 3. frame tables
+    // 3. the documented stepwise loop: every unit converted entry by entry through the
+    //    public pieces (`read_line_program`, `read_entry`, `add_entry`,
+    //    `convert_attribute_value`), then written at once, skipped or left to
+    //    `Dwarf::write`; skeleton units are completed from the DWO file when the case has one
+    let has_split = case.secs.contains_key("dwo_debug_info");
+    let mut split_dwarf = load_dwarf(mk, case, "dwo_");
+    split_dwarf.make_dwo(&dwarf);
+    ctx.enter_with_budget("write.ConvertUnit.stepwise", budget);
+    let stepwise = (|| -> write::ConvertResult<(usize, usize)> {
+        let mut out = write::Dwarf::new();
+        let mut sections = Sections::new(FaultWriter::new(endian, write_fail_at));
+        let (mut units, mut splits) = (0usize, 0usize);
+        {
+            let mut conv = out.convert(&dwarf)?;
+            while let Some((mut unit, root)) = conv.read_unit()? {
+                units += 1;
+                let mode = (sel >> (2 * (units as u64 % 16))) & 3;
+                if has_split && unit.read_unit.dwo_id.is_some() && mode != 3 {
+                    splits += 1;
+                    let mut cs = if mode == 0 {
+                        let mut filter = write::FilterUnitSection::new_split(&split_dwarf, unit.read_unit)?;
+                        let mut k = 0u64;
+                        while let Some(mut funit) = filter.read_unit()? {
+                            let mut entry = funit.null_entry();
+                            while funit.read_entry(&mut entry)? {
+                                k += 1;
+                                if (k + sel) % 2 == 0 {
+                                    funit.require_entry(entry.offset);
+                                }
+                            }
+                        }
+                        unit.convert_split_with_filter(filter)?
+                    } else {
+                        unit.convert_split(&split_dwarf)?
+                    };
+                    let (mut sunit, sroot) = cs.read_unit()?;
+                    if mode == 1 {
+                        sunit.convert(sroot, &convert_address)?;
+                    } else {
+                        stepwise_unit(&mut sunit, sroot, &convert_address, sel)?;
+                    }
+                    continue;
+                }
+                stepwise_unit(&mut unit, root, &convert_address, sel)?;
+                match mode {
+                    1 => unit.write(&mut sections).map_err(write::ConvertError::Write)?,
+                    2 => unit.skip(),
+                    _ => {}
+                }
+            }
+        }
+        out.write(&mut sections).map_err(write::ConvertError::Write)?;
+        Ok((units, splits))
+    })();
+    match stepwise {
+        Ok((u, sp)) => {
+            ctx.item();
+            if sp > 0 {
+                ctx.probe("convert_split_ok");
+            }
+            ev!(ctx, "stepwise units={} split={}", u, sp);
+        }
+        Err(e) => {
+            ctx.errs += 1;
+            ev!(ctx, "stepwise error {:?}", std::mem::discriminant(&e));
+        }
+    }
+
+    // 4. a line program without a unit, read row by row or sequence by sequence
+    ctx.enter_with_budget("write.Dwarf.read_line_program", budget);
+    let asz0 = case.knob("addr_size", 8) as u8;
+    let standalone = (|| -> write::ConvertResult<(usize, usize)> {
+        let program = dwarf.debug_line.program(gimli::DebugLineOffset(0), asz0, None, None)?;
+        let mut out = write::Dwarf::new();
+        let (enc, lenc) = target_encodings(sel, program.header().encoding());
+        let mut conv = out.read_line_program(&dwarf, program, enc, lenc)?;
+        let mut n = 0usize;
+        if sel & 1 == 0 {
+            while let Some(seq) = conv.read_sequence()? {
+                n += 1 + seq.rows.len();
+            }
+        } else {
+            while let Some(_row) = conv.read_row()? {
+                n += 1;
+            }
+        }
+        let in_seq = conv.in_sequence();
+        let (_program, files) = conv.program();
+        let _ = in_seq;
+        Ok((n, files.len()))
+    })();
+    match standalone {
+        Ok((rows, files)) => {
+            ctx.item();
+            ev!(ctx, "standalone line rows={} files={}", rows, files);
+        }
+        Err(e) => {
+            ctx.errs += 1;
+            ev!(ctx, "standalone line error {:?}", std::mem::discriminant(&e));
+        }
+    }
+
+    // 5. frame tables
     let asz = case.knob("addr_size", 8) as u8;
     let _ = bases_of(case);
     let mut eh = EhFrame::from(mk(case.sec("eh_frame")));
